@@ -33,6 +33,7 @@ type round struct {
 	commits  []commitRec                    // every commit in order (rolled-back ones included)
 
 	firstMissing string
+	tainted      map[string]bool // roots whose snapshot was left incomplete by a report-only data-trie fault or taken from a broken main DB: a later request for the same root (empty block) is skipped by design as "already taken"
 	reprocessed  map[string]bool // roots of blocks that were rolled back and processed again (identical block)
 	noFinalize   bool            // set during a fault window: the root to be re-requested must not get pruned
 	baseBroken   bool // an earlier request could not be served from an intact main DB: the snapshot DB contents that
@@ -322,6 +323,9 @@ func (ro *round) window(profile string) {
 	if ce := cm.TraverseRoot(ro.env.Gate.Raw, b, nil); ce != nil {
 		verifiable = false
 		r.Count("requests_not_verified_root_already_broken_in_main_db", 1)
+	} else if ro.tainted[string(b.Root)] {
+		verifiable = false
+		r.Count("requests_not_verified_same_root_as_an_earlier_unverifiable_snapshot", 1)
 	}
 	model := &cm.Block{Height: b.Height, Root: append([]byte(nil), b.Root...), Accts: b.Accts}
 	nData := 0
@@ -453,12 +457,14 @@ func (ro *round) window(profile string) {
 	}
 	if !verifiable {
 		ro.baseBroken = true
+		ro.tainted[string(model.Root)] = true
 		ro.executed = append(ro.executed, request{kind, string(model.Root), len(ro.commits)})
 		return
 	}
 	if ro.baseBroken && kind == "checkpoint" {
 		// the checkpoint adds to a snapshot DB whose base was taken from a main DB that had already lost nodes
 		r.Count("requests_not_verified_base_snapshot_taken_from_broken_main_db", 1)
+		ro.tainted[string(model.Root)] = true // a later snapshot request for this root is skipped as "already taken"
 		ro.executed = append(ro.executed, request{kind, string(model.Root), len(ro.commits)})
 		return
 	}
@@ -479,6 +485,7 @@ func (ro *round) window(profile string) {
 		if key != "" {
 			r.Count("report_only_fault_in_data_trie_snapshot_stays_incomplete_after_retry", 1)
 			ro.baseBroken = true
+			ro.tainted[string(model.Root)] = true
 			ro.executed = append(ro.executed, request{kind, string(model.Root), len(ro.commits)})
 			return
 		}
@@ -689,7 +696,7 @@ func runRound(r *vk.Run, c *vk.Case, scratch string) {
 		return
 	}
 	defer env.Close()
-	ro := &round{r: r, c: c, env: env, w: cm.NewWorld(env), mod: uint64(cfg.CheckpointModulus), nodes: map[string]map[string]struct{}{}, reprocessed: map[string]bool{}}
+	ro := &round{r: r, c: c, env: env, w: cm.NewWorld(env), mod: uint64(cfg.CheckpointModulus), nodes: map[string]map[string]struct{}{}, reprocessed: map[string]bool{}, tainted: map[string]bool{}}
 	env.Rec.OnPrune = func(root []byte, id data.TriePruningIdentifier) {
 		if env.Tsm.IsPruningBlocked() {
 			atomic.AddInt32(&ro.blocked, 1)
